@@ -14,7 +14,7 @@ import traceback
 import replay_C20 as rp
 import text_C20 as tx
 
-SIZES = {"quick": (1001, 2500), "thorough": (1001, 1500, 2500, 5000)}
+SIZES = {"quick": (1001, 2500), "thorough": (1001, 1500, 5000)}
 TARGET = {1: 0, 2: 500, 3: 999, 4: 1000, 5: 1200, 6: None}  # model position of the odd cell -> real row (None = last)
 
 
